@@ -432,6 +432,13 @@ GAPS:
     the forward direction for A-label hosts stays C04_headline_idn_host_unchanged (GAPS 1).
  6. Only the auto-encoding constructor is covered (that is what C04 is about); `encoded=True` is trivially verbatim
     (C07_preencoded_verbatim) but `str` of such a URL may still drop a default port.
+    CLOSED for canonical text (outside C04's wording, which is about the auto-encoding mode) by
+    C03_encoded_true_on_canonical, C03_same_parts_not_canonical (C03Encoded.lean), see
+    C03_headline_encoded_true_on_canonical_text, C03_headline_same_parts_fails_to_give_canonical (C03HeadlineMore5.lean):
+    for every `s` with `canonicalB s = true`, `str(URL(s, encoded=True)) == s` as well (it stores the same five parts as
+    `URL(s)` and every accessor agrees); the remark about the default port is now a theorem on a witness:
+    `URL('http://h:80/', encoded=True)` stores ":80", prints 'http://h/' (F-C07-default-port) and 'http://h:80/' is not
+    canonical.
  7. NEW (trusted definition introduced by the closure of GAPS 2).  `canonicalB` (C04Decide.lean) with `netlocB`,
     `hostKindB`, `v6B`, `userInfoB`, `portB` (Lemmas/CanonDecide.lean), `bracketTextB` (Lemmas/BrHost.lean family),
     `C04_canonClauses`, `isCanon` and `Recomposable` (earlier files) is a hand-written READING of the property's phrase
@@ -442,7 +449,12 @@ GAPS:
     rejects are listed in GAPS 5 (so it is NOT complete outside `C04_Domain`).  That it is not vacuous is shown by
     instances only (C04_headline_checker_instances and the examples of C04Decide.lean); there is no theorem "every
     string with property X is accepted" other than the completeness half of GAPS 5 (accepted iff unchanged, inside the
-    domain).  The split it uses is `Rfc.appendixB Gen.schemeChars` (C07Headline.lean GAPS 6: now the RFC's regular
+    domain) — and, ADDED with C03Encoded.lean, a SECOND characterisation of the same kind that does not go through the
+    auto-encoding `str`: inside `C04_Domain`, `canonicalB s = true` IFF `URL(s, encoded=True)` and `URL(s)` store the same
+    five parts AND the `encoded=True` object prints `s` (C03_encoded_true_canonical_iff, see
+    C03_headline_encoded_true_canonical_iff, C03HeadlineMore5.lean; neither conjunct suffices alone).  Also ADDED: what
+    `canonicalB` implies for the STRING FORM (ASCII, components well escaped: C03_headline_canonical_text_ascii).  The
+    split it uses is `Rfc.appendixB Gen.schemeChars` (C07Headline.lean GAPS 6: now the RFC's regular
     expression up to the scheme test) and the C-backend tables (equal to the Python ones by `gen_tab_backend_eq`).
  8. NEW (hypothesis of the converse, GAPS 5).  `C04_Domain o s p` (C04DecideConverse.lean) =
     `PyStr s` ∧ `splitUrl o s = .ok p` ∧ `AuthInputB o p.netloc` (C03Bracket.lean) ∧ `C04_NoIPv4Zone p.netloc`; its
@@ -452,6 +464,9 @@ GAPS:
     case, IPv6 literal in any spelling `ipaddress` accepts + zone, bracketed non-IPv6 text).  The corner
     `C04_NoIPv4Zone` is needed only by the Boolean checker (it asks for a lower-case zone), not by the Prop-level
     converse C04_headline_fixed_point_is_canonical.
+    ADDED: `C04_Domain` / `C04_domainB` are now also the hypothesis of the converse half of C03Headline.lean GAPS 6
+    (C03_headline_encoded_true_same_parts, C03_headline_encoded_true_canonical_iff, C03HeadlineMore5.lean); the same
+    remarks apply there.
  9. NEW (negative result, candidate finding).  "@host": a userinfo consisting of the '@' alone is legal RFC 3986
     (`userinfo = *( unreserved / pct-encoded / sub-delims / ":" )`), the string "http://@h/" satisfies every condition
     the property lists, and str(URL("http://@h/")) == "http://h/" — for EVERY host, port, path, query and fragment of
